@@ -122,12 +122,15 @@ func (p *Program) VerifyFunc(key string) (res *UnitResult) {
 		return res
 	}
 	fm := FloatIEEE
-	if ct != nil && ct.Mode == "real" {
+	if ct != nil && (ct.Mode == "real" || ct.Mode == "order") {
 		fm = FloatReal
 	}
 	res.FloatMode = "ieee"
 	if fm == FloatReal {
 		res.FloatMode = "real"
+		if ct != nil && ct.Mode == "order" {
+			res.FloatMode = "order"
+		}
 	}
 	if ct != nil && ct.Trusted {
 		res.Trusted = true
@@ -162,6 +165,12 @@ func (p *Program) VerifyFunc(key string) (res *UnitResult) {
 		res.Contracts = append(res.Contracts, keys(x.usedContracts)...)
 		res.Models = append(res.Models, keys(x.modelsUsed)...)
 		res.FloatArith = res.FloatArith || x.usedFloatArith
+		if ct != nil && ct.Mode == "order" {
+			if x.usedFloatArith && res.Unsupported == "" {
+				res.Unsupported = "mode order: the function performs floating-point arithmetic, so the order-only model is not exact"
+			}
+			res.Notes = append(res.Notes, "A-order: "+key+" is verified with floats as reals; exact because the function only copies and compares floats and its inputs are finite (precondition)")
+		}
 	}
 	res.Notes = uniq(res.Notes)
 	res.Inlined = uniq(res.Inlined)
